@@ -6,6 +6,8 @@
 #include <stdlib.h>
 #include <string.h>
 #include <unistd.h>
+#include <pthread.h>
+#include <semaphore.h>
 
 #include "vport.h"
 #include "lltdPort.h"
@@ -221,6 +223,72 @@ static void peek_last_tx(void) {
 static long pipe_ev = 0, pipe_idx = 0;   /* provenance of a piped frame (0 = none) */
 static long last_req_ev[VP_MAX_IF + 1];
 
+/* ---- forced preemption (PRX): the daemons run one receive thread per interface. The frame of interface a is
+ * handled on a thread of its own; at its k-th call into the port that thread is suspended, interface b's frame is
+ * handled from start to end, then the first thread resumes. Only one thread runs at any time. */
+static struct {
+    int pending;            /* a PRX line is being served: the next deliver() is the preempted one */
+    long k;                 /* suspend at the k-th port call */
+    int b_id; size_t b_len; uint8_t b_fill; uint8_t *b_pre; size_t b_npre;
+    long calls;             /* port calls made by the handler thread */
+    int paused;
+} prx;
+static pthread_t prx_thread;
+static int prx_thread_live = 0;
+static sem_t prx_evt, prx_resume;
+static struct { uint8_t *buf; vif *v; } prx_job;
+
+static void prx_hook(void) {
+    if (!prx_thread_live || !pthread_equal(pthread_self(), prx_thread)) return;
+    prx.calls++;
+    if (prx.calls == prx.k) {
+        prx.paused = 1;
+        sem_post(&prx_evt);
+        sem_wait(&prx_resume);
+    }
+}
+
+static void *prx_worker(void *arg) {
+    (void)arg;
+    parseFrame(prx_job.buf, prx_job.v);
+    prx.paused = 0;
+    sem_post(&prx_evt);
+    return NULL;
+}
+
+static void deliver(int id, size_t len, uint8_t fill, const uint8_t *pre, size_t npre, int eq, int all);
+
+static void parse_preempted(uint8_t *buf, vif *v) {
+    static int inited = 0;
+    if (!inited) { sem_init(&prx_evt, 0, 0); sem_init(&prx_resume, 0, 0); inited = 1; }
+    prx.pending = 0;
+    prx.calls = 0;
+    prx.paused = 0;
+    prx_job.buf = buf; prx_job.v = v;
+    vp_portcall_hook = prx_hook;
+    pthread_attr_t at;
+    pthread_attr_init(&at);
+    pthread_attr_setstacksize(&at, 8u << 20);
+    prx_thread_live = 1;
+    if (pthread_create(&prx_thread, &at, prx_worker, NULL) != 0) die("pthread_create");
+    sem_wait(&prx_evt);
+    if (prx.paused) {
+        static vp_saved sv;
+        long save_lineno_ev = last_req_ev[v->id];
+        vp_save(&sv);
+        deliver(prx.b_id, prx.b_len, prx.b_fill, prx.b_pre, prx.b_npre, 0, 0);
+        vp_restore(&sv);
+        last_req_ev[v->id] = save_lineno_ev;
+        vp_fail_alloc_at = plan_alloc; vp_fail_alloc_sticky = plan_sticky; vp_fail_send_mask = plan_send;
+        vp_fail_send_all = plan_send_all; vp_fail_get_mask = plan_get;
+        sem_post(&prx_resume);
+        sem_wait(&prx_evt);
+    }
+    pthread_join(prx_thread, NULL);
+    prx_thread_live = 0;
+    vp_portcall_hook = NULL;
+}
+
 static void deliver(int id, size_t len, uint8_t fill, const uint8_t *pre, size_t npre, int eq, int all) {
     vif *v = vp_if[id];
     if (!v) die("interface not booted");
@@ -243,7 +311,9 @@ static void deliver(int id, size_t len, uint8_t fill, const uint8_t *pre, size_t
         ifextra *x = extra[id];
         ev = derive_session_event(buf, len, x->table, v->mac);
     }
-    parseFrame(buf, v);
+    long pre_calls = -1;
+    if (prx.pending && !all) { parse_preempted(buf, v); pre_calls = prx.calls; }
+    else parseFrame(buf, v);
     if (all) {
         ifextra *x = extra[id];
         /* embedded entry point: told the length, given exactly that many bytes */
@@ -270,7 +340,7 @@ static void deliver(int id, size_t len, uint8_t fill, const uint8_t *pre, size_t
     fprintf(tr, "{\"e\":\"req\",\"ln\":%ld,\"ifc\":%d,\"eq\":%d,\"all\":%d,\"ev\":%d,\"len\":%zu,\"fill\":%u,\"b\":",
             lineno, id, eq, all, ev, len, fill);
     vp_json_bytes(tr, buf, keep);
-    fprintf(tr, ",\"pipe\":[%ld,%ld]", pipe_ev, pipe_idx);
+    fprintf(tr, ",\"pipe\":[%ld,%ld],\"pcalls\":%ld", pipe_ev, pipe_idx, pre_calls);
     last_req_ev[id] = evno + 1;
     /* projection of the real per-interface state after the request (state comparison with the model) */
     lltd_verif_iface_view view;
@@ -309,6 +379,27 @@ static void do_rx(char **tok, int ntok, int all) {
         deliver(atoi(p), len, fill, framebuf, npre, first ? 0 : 1, all);
         first = 0;
     }
+}
+
+/* PRX a b k lenA fillA hexA lenB fillB hexB : interface a's frame, preempted at its k-th port call by
+ * interface b's frame (handled from start to end), see parse_preempted */
+static void do_prx(char **tok, int ntok) {
+    if (ntok < 10) die("PRX needs: a b k lenA fillA hexA lenB fillB hexB");
+    static uint8_t fb[16384];
+    int a = atoi(tok[1]);
+    prx.b_id = atoi(tok[2]);
+    if (a == prx.b_id) die("PRX: one receive thread per interface");
+    prx.k = strtol(tok[3], NULL, 0);
+    size_t lenA = (size_t)strtoul(tok[4], NULL, 0);
+    uint8_t fillA = (uint8_t)strtoul(tok[5], NULL, 0);
+    size_t npreA = parse_hex(tok[6], framebuf, sizeof framebuf);
+    prx.b_len = (size_t)strtoul(tok[7], NULL, 0);
+    prx.b_fill = (uint8_t)strtoul(tok[8], NULL, 0);
+    prx.b_npre = parse_hex(tok[9], fb, sizeof fb);
+    prx.b_pre = fb;
+    prx.pending = 1;
+    deliver(a, lenA, fillA, framebuf, npreA, 0, 0);
+    prx.pending = 0;
 }
 
 /* DRAIN id max len fill hex : repeat a Query until the more-flag clears */
@@ -430,6 +521,7 @@ int main(int argc, char **argv) {
         else if (!strcmp(tok[0], "LDRAIN")) do_drain(tok, ntok, 1);
         else if (!strcmp(tok[0], "FLOOD")) do_flood(tok, ntok);
         else if (!strcmp(tok[0], "PIPE")) do_pipe(tok, ntok);
+        else if (!strcmp(tok[0], "PRX")) do_prx(tok, ntok);
         else if (!strcmp(tok[0], "ADV")) vp_now_ms += strtoull(tok[1], NULL, 0);
         else if (!strcmp(tok[0], "FAULT")) {
             plan_alloc = kvl(tok, ntok, "alloc", 0);
